@@ -69,3 +69,13 @@ add("C14", "exploration",
     "ground-truth cell comparison on a chain whose every field value is distinct and non-zero, over all singles and pairs of selectable field names per indexing mode (exhaustive) and random larger sets",
     "All singles and all pairs of mode-compatible field names (tx without event, log with event, trace) are run through ValidateFix and the full pipeline on a chain in which every field of every item has its own non-zero value; every stored cell is compared with what the source reported, the chosen plan and wrong columns are part of the key. Random larger sets on top.",
     PIPE_NOTE, "DESIGN.md §7 C14")
+
+add("C07", "exploration",
+    "faithful-attachment oracle (written from the statement, independent of the client) over every single mutation of a correct response set, for every reachable data plan × limit 1..6, through uncached and caching clients; hostile Hash/Latest/poller scenarios one per case",
+    "For each of the 17 reachable plans and limits 1..6 the correct exchanges of one Get are recorded from the simulated node and replayed under every single mutation (48 kinds: drop/duplicate/reorder/renumber/null/error member/broken parent/changed hash/item moved out of range or to another block or tx/changed blockHash/wrong JSON types/truncation at k/16/non-2xx with intact body/garbage); thorough adds sampled pairs. Get must fail when the mutated set is inconsistent in one of the statement's ways and otherwise return exactly the attachment the mutated data describe.",
+    "Trusted: refmodel/attach.go (oracle), simnode rendering. Undetectable omissions (a log simply absent from eth_getLogs) are not violations. One known finding listed.", "DESIGN.md §7 C07")
+
+add("C08", "exploration",
+    "ground-truth and uncached-client equivalence per call + fetch counting from the node's request log + announced-pair membership for Latest; sequential and concurrent request mixes with injected fetch failures; poller at 2 ms and 1 h",
+    "Sequences and concurrent mixes (2–12 goroutines) of Get over few keys (same/overlapping ranges, different filters on shared segments, 14 call shapes, max-reads 1..6) with faults injected into fetches, and Latest under head growth, repeats, regressions and poller failures: every result equals the chain and what an uncached client returns, every filter-matching log is present exactly once, a failed fetch is never served, reads between two source fetches never exceed max-reads (relaxed by measured in-flight calls when concurrent), every reported head is an announced (number, hash) pair.",
+    "Trusted: simnode request log as the record of what the source was asked and what it announced. Minimum observations (cache hits, evictions by both rules, poller resets) are enforced.", "DESIGN.md §7 C08")
